@@ -2,7 +2,7 @@
    path component into a child number (defect D5 lived here).  For every ASCII component the MiniPy semantics of the
    regenerated term is the model's function; hence whatever the source returns is a legal child number, hardened exactly
    when the component carries a ' or h marker, and every other component raises. *)
-From BHW Require Import Lib.Base Lib.ListAux Lib.PyInt Model.Helper Model.WalletUtils Py.Interp Py.Tactics Proofs.PyPath.
+From BHW Require Import Lib.Base Lib.ListAux Lib.PyInt Model.Helper Model.WalletUtils Py.Interp Py.Tactics Proofs.Path Proofs.PyPath Proofs.PyPathObj.
 From BHWGen Require Import Consts PyAst.
 Open Scope string_scope.
 Open Scope Z_scope.
@@ -61,12 +61,62 @@ Proof.
     rewrite Hk. cbn [bind]. replace ((0 <=? k) && (k <? 4294967296)) with false by lia. exact (f_equal Exc Hm).
 Qed.
 
+(* ---- the whole path object at the level of the source (Proofs/PyPathObj.v): parse (with list_get's try/except, the
+   constructor and integrity_check), to_list and __repr__ ---- *)
+
+(* Bip32Path.parse: for every ASCII string the MiniPy semantics of the regenerated term returns the model's path object,
+   and raises a genuine Python exception exactly where the model rejects *)
+Theorem C17_source_parse_is_model : forall ext fuel s,
+  ascii s = true ->
+  agrees (sem_wallet_utils__Bip32Path__parse ext fuel [VStr s]) (rmap vpath (path_parse s)).
+Proof. exact parse_sem. Qed.
+
+(* str(path): the model's string, for every object whose slots hold ints or None *)
+Theorem C17_source_repr_is_model : forall ext fuel a b c d e prv,
+  sem_wallet_utils__Bip32Path____repr__ ext fuel [vpath5 a b c d e prv]
+  = Val (VStr (path_repr {| bp_items := [a; b; c; d; e]; bp_private := prv |})).
+Proof. exact repr_sem. Qed.
+
+(* the constructor refuses a value to the right of a None (integrity_check), and builds the object otherwise *)
+Theorem C17_source_constructor : forall ext fuel a b c d e prv,
+  sem_wallet_utils__Bip32Path____init__ ext fuel [vopt a; vopt b; vopt c; vopt d; vopt e; VBool prv]
+  = if integrity [a; b; c; d; e] false then Val (vpath5 a b c d e prv) else Exc RuntimeError.
+Proof. exact init_sem. Qed.
+
+(* clause 1 of the property on the source terms: for every index list of at most five levels over [0, 2^32) and both root
+   marks, what the source of __repr__ prints is mapped back by the source of parse to the same object, whose to_list is
+   the index list *)
+Theorem C17_source_format_parse_id : forall ext fuel private l,
+  (List.length l <= 5)%nat -> Forall (fun i => 0 <= i < 4294967296) l ->
+  let obj := vpath (path_of_list private l) in
+  sem_wallet_utils__Bip32Path____repr__ ext fuel [obj] = Val (VStr (path_repr (path_of_list private l))) /\
+  sem_wallet_utils__Bip32Path__parse ext fuel [VStr (path_repr (path_of_list private l))] = Val obj /\
+  sem_wallet_utils__Bip32Path__to_list ext fuel [obj] = Val (VList (map VInt l)).
+Proof. exact source_format_parse_id. Qed.
+
+(* malformed strings raise in the source: wrong root marker, a bad / out-of-range component in positions 1..5, an empty
+   inner component (model-level theorems of Props/C17.v transported through C17_source_parse_is_model) *)
+Theorem C17_source_malformed_raises : forall ext fuel s,
+  ascii s = true -> path_parse s = Err ->
+  exists e, sem_wallet_utils__Bip32Path__parse ext fuel [VStr s] = Exc e /\ genuine e.
+Proof.
+  intros ext fuel s Ha He. assert (P := parse_sem ext fuel s Ha). rewrite He in P. exact P.
+Qed.
+
 Theorem C17_source_translated :
   forallb (fun q => existsb (String.eqb q) translated)
-    ["wallet_utils.Bip32Path.convert_hardened"; "wallet_utils.Bip32Path.is_hardened"; "wallet_utils.Bip32Path.is_private"] = true.
+    ["wallet_utils.Bip32Path.convert_hardened"; "wallet_utils.Bip32Path.is_hardened"; "wallet_utils.Bip32Path.is_private";
+     "wallet_utils.list_get"; "wallet_utils.Bip32Path._to_list"; "wallet_utils.Bip32Path.to_list"; "wallet_utils.Bip32Path.integrity_check";
+     "wallet_utils.Bip32Path.__init__"; "wallet_utils.Bip32Path.m"; "wallet_utils.Bip32Path.repr_hardened";
+     "wallet_utils.Bip32Path.__repr__"; "wallet_utils.Bip32Path.parse"] = true.
 Proof. reflexivity. Qed.
 
 Print Assumptions C17_source_convert_hardened_is_model.
 Print Assumptions C17_source_component_range.
 Print Assumptions C17_source_out_of_range_raises.
+Print Assumptions C17_source_parse_is_model.
+Print Assumptions C17_source_repr_is_model.
+Print Assumptions C17_source_constructor.
+Print Assumptions C17_source_format_parse_id.
+Print Assumptions C17_source_malformed_raises.
 Print Assumptions C17_source_translated.
